@@ -72,7 +72,7 @@ pub fn gen_case(g: &mut Gen) -> Case {
             3 => "c/dl".to_string(),
             4 => g.pick(&["c/missing", "nope", "c/d/none/deeper", "c/f/below-a-file"]).to_string(),
             5 => ".".to_string(),
-            6 => g.pick(&["c/a b", "c/nl\nname", "c/a b/x\ny", "c/end\n", "c/end\n"]).to_string(),
+            6 => g.pick(&["c/a b", "c/nl\nname", "c/a b/x\ny", "c/end\n", "c/end\n", "(2024) b", "!imp", ",v", ")x", "+", "{}"]).to_string(),
             _ => {
                 // only through files0: names that cannot be operands
                 if via != 0 {
@@ -182,7 +182,9 @@ pub fn check(ctx: &mut Ctx, c0: &Case) -> Outcome {
     ctx.fresh_case_dir();
     c.tree.build();
     // entries in the cwd whose names start with '-' (reachable only through -files0-from)
-    let dash_names = ["-dash", "-print", "--", "-"];
+    // ... and names that begin with, or are, a character that is an operator when it stands alone; the
+    // single characters '(' ')' '!' ',' themselves cannot be operands and are not used as such
+    let dash_names = ["-dash", "-print", "--", "-", "(2024) b", "!imp", ",v", ")x", "+", "{}"];
     for d in dash_names {
         let p = ctx.root.join(d);
         let _ = std::fs::remove_dir_all(&p);
